@@ -486,6 +486,18 @@ impl Calibrations {
                                         *memory_reference = target.clone()
                                     }
                                 }
+                                // A nested measurement into the formal target measures into the
+                                // actual one.
+                                Instruction::Measurement(Measurement {
+                                    target: Some(memory_reference),
+                                    ..
+                                }) if Some(&memory_reference.name)
+                                    == calibration.identifier.target.as_ref() =>
+                                {
+                                    if let Some(target) = &measurement.target {
+                                        *memory_reference = target.clone()
+                                    }
+                                }
                                 _ => {}
                             }
                         }
